@@ -373,7 +373,19 @@ def t1_value_formulas(ctx: Ctx):
     for s in walk_no_nested(fn):
         if isinstance(s, ast.Assign) and dotted(s.targets[0]) in src:
             n = dotted(s.targets[0])
-            ctx.check(norm(s.value) == f'self._parse_expr({src[n]})', PARSER, s, 'Parser._parse_digits', f'{n} read from {src[n]}', f'got {norm(s.value)}')
+            # (through the expression parser, or through the helper that reads `-0` as the integer 0 and hands everything
+            # else to it: which of the two is not what fixes the argument order)
+            ok_ = isinstance(s.value, ast.Call) and call_name(s.value) in ('self._parse_expr', 'self._parse_integer_argument') and [norm(a) for a in s.value.args] == [src[n]]
+            ctx.check(ok_, PARSER, s, 'Parser._parse_digits', f'{n} read from {src[n]}', f'got {norm(s.value)}')
+    # `-0` as an integer argument: the sign fold of a negated zero makes it a signed decimal literal, which these two forms
+    # would refuse; the helper they read their arguments through answers the integer 0 for it and nothing else special
+    helper = ctx.repo.methods(PARSER, 'Parser', inherited=False).get('_parse_integer_argument')
+    if helper is not None:
+        hf = helper[2]
+        rets = [r for r in walk_no_nested(hf) if isinstance(r, ast.Return)]
+        special = [r for r in rets if isinstance(r.value, ast.Call) and call_name(r.value) == 'Integer' and r.value.args and norm(r.value.args[0]) == '0']
+        general = [r for r in rets if norm(r.value) == f'self._parse_expr({hf.args.args[1].arg})']
+        ctx.check(len(rets) == 2 and len(special) == 1 and len(general) == 1, PARSER, hf, 'Parser._parse_integer_argument', 'an integer argument is the parsed expression, or the integer 0 for `-0`', f'returns {[norm(r.value) for r in rets]}')
     # Digits / Rational constructors store fields in the order given
     for cls, fields in (('Digits', ['m', 'e', 'b']), ('Rational', ['p', 'q'])):
         init = ctx.fn(FPYAST, f'{cls}.__init__')
